@@ -9,7 +9,8 @@ from .. import c06common as C
 from .. import c06rig as R
 
 ASSUME = [
-    "model and ties as for C06 (coq/C06/C06Dispatch.v, translator c06tables, exhaustive kind x selection sweep "
+    "model and ties as for C06 (coq/C06/C06Dispatch.v, translator c06tables = ast extraction cross-checked against "
+    "the evaluated helpers/handleMaps, evaluated table when the source shape is not recognised, exhaustive kind x selection sweep "
     "through the real stack); C07 adds the answer payloads (ack id/class/type/to/participant, receipt "
     "id/to/participant/type/call-id, pong id/to/xmlns) to the comparison and to the oracle",
     "domain: notification/call stanzas whose mandatory attributes parse (t present for kinds the library parses); "
@@ -41,8 +42,19 @@ def run(ctx):
     profile = R.make_profile(ctx.scratch)
     stats = C.new_stats()
     nvec = 6 if ctx.tier == "quick" else 30
-    C.sweep(ctx, model, table, select, nvec, profile, stats, judge_answers=True)
-    C.history_sweep(ctx, model, select, 40 if ctx.tier == "quick" else 600, stats, judge_answers=True)
+    polluted = bool(gen and gen["history_findings"])    # see harness/props/C06.py
+    if polluted:
+        ctx.notes.append("sweeps not run: the stack-builder helpers return different values after earlier calls in "
+                         "the same process (see the oracle:helper-call-history records)")
+        ctx.coverage["sweeps_skipped"] = "helper values depend on the call history"
+    else:
+        try:
+            C.sweep(ctx, model, table, select, nvec, profile, stats, judge_answers=True)
+            C.history_sweep(ctx, model, select, 40 if ctx.tier == "quick" else 600, stats, judge_answers=True)
+        except Exception as e:
+            if gen is not None:                             # see harness/props/C06.py
+                raise
+            ctx.notes.append("sweeps aborted on a tree the translator could not use: %s: %s" % (type(e).__name__, e))
     if model:
         model.close()
         ctx.ties["correspondence"] = "ok" if stats["mismatches"] == 0 else "broken"
@@ -75,4 +87,7 @@ def run(ctx):
 
 
 def replay(ctx, data):
+    rc = C.replay_translator_case(ctx, data)
+    if rc is not None:
+        return rc
     return C.replay_case(ctx, data, R.make_profile(ctx.scratch))
